@@ -17,7 +17,7 @@ from leuvenmapmatching.map.inmem import InMemMap
 from leuvenmapmatching.map.sqlite import SqliteMap
 
 ID = "C18"
-CASES = {"quick": 1500, "thorough": 30000}
+CASES = {"quick": 5000, "thorough": 60000}
 MIN_CASES_PER_SHARD = 12
 CASE_TIMEOUT = 60
 RULE = ("one case = a build history of 4..25 operations (add_node / add_nodes / add_edge / add_edges with and without no_commit / no_index, "
